@@ -337,7 +337,8 @@ func Tar(c *Ctx) error {
 			return model.Entry{Path: p, Type: "file", Perm: 0644, Mtime: uniqueMtime(), Data: []byte(data), Size: int64(len(data)), Content: model.ContentID([]byte(data))}
 		}
 		dr := func(p string) model.Entry { return model.Entry{Path: p, Type: "dir", Perm: 0755, Mtime: uniqueMtime()} }
-		t1 := model.Tree{dr("b"), mk("b/x", "AAAA"), mk("x", "BBBB"), mk("y", "yy")}
+		// (the inner trees of spec/MountRouteMC.tla: x, b/x, -b/x - "a" + "b/x" and "ab" + "/x" spell the same characters)
+		t1 := model.Tree{dr("b"), mk("b/x", "AAAA"), mk("x", "BBBB"), mk("y", "yy"), dr("-b"), mk("-b/x", "CCCC")}
 		t1.Sort()
 		for _, mounts := range [][]string{{"a", "ab"}, {"ab", "a"}, {"m"}, {"a", "a-b", "ab"}} {
 			fixed = append(fixed, tarInput{Tree: t1, Mounts: mounts}, tarInput{Tree: t1, Mounts: mounts, Bare: true})
